@@ -18,3 +18,20 @@ void _ZN9QDateTimeD1Ev(char *self) { }
 #endif
 uint32_t vp_c05_noff(void) { return C05_NOFF; }
 uint32_t vp_c05_ndis(void) { return C05_NDIS; }
+/* libstdc++ glue: std::__new_allocator<SaslMechanism>::allocate(n) (inline, overridden at class level).  The header version
+   ends in operator new(n * sizeof(T)) with a symbolic n (the number of mechanisms that survived the filters): cbmc then
+   creates an object of symbolic size and every later access goes through the array theory (measured: SAT runs out of 6 GB
+   for a ONE-name offer).  Same contract, fixed capacity: a typed block of C05_VEC_CAP elements; n is asserted to fit. */
+#ifdef HAVE_T_struct_QXmpp__Private__SaslMechanism
+#ifndef C05_VEC_CAP
+#define C05_VEC_CAP 6
+#endif
+char* _ZNSt15__new_allocatorIN5QXmpp7Private13SaslMechanismEE8allocateEmPKv(char *self, uint64_t n, char *hint) {
+  ASSERT(n <= C05_VEC_CAP, "C05: std::vector<SaslMechanism> capacity of the model exceeded");
+  struct T_struct_QXmpp__Private__SaslMechanism *p = malloc(sizeof(struct T_struct_QXmpp__Private__SaslMechanism) * C05_VEC_CAP); ASSUME(p != 0); return (char*)p; }
+/* _Vector_base<SaslMechanism>::_M_allocate(n): the header returns nullptr for n == 0; the destructor then computes
+   end_of_storage - start on two null pointers, which is fine in C++ but flagged by cbmc's pointer checks.  Always hand out a block
+   (allowed: a vector may own storage while empty). */
+char* _ZNSt12_Vector_baseIN5QXmpp7Private13SaslMechanismESaIS2_EE11_M_allocateEm(char *self, uint64_t n) {
+  return _ZNSt15__new_allocatorIN5QXmpp7Private13SaslMechanismEE8allocateEmPKv(self, n, 0); }
+#endif
